@@ -432,6 +432,8 @@ def t_process_queue(E):
                     return (VVal(p),)
                 if tag == 'timeout':
                     E.throw('TimeoutError', origin='timer')
+                if tag == 'own_cancel':
+                    st['own_cancel_delivered'] = True
                 E.throw('CancelledError', origin=('flush' if tag == 'flush' else 'own-cancel'))
             return None
         Bn['__await_ext__'] = aw_ext
@@ -577,6 +579,9 @@ def t_process_queue(E):
 
             def step():
                 ev = st['events']
+                E.oblige(Qn + '/cancellation.delivered_to_the_task_is_never_taken_for_a_flush_request',
+                         z3.BoolVal(not st.get('own_cancel_delivered')), props={'C07'},
+                         detail='the CancelledError raised at the timed read was the task\'s own cancellation, yet the round goes on')
                 E.oblige(Qn + '/timer.re_armed_in_every_iteration_before_loading',
                          z3.BoolVal(st.get('armed_this_iteration') and 'arm' in ev and
                                     ('gather' not in ev or ev.index('arm') < ev.index('gather'))), props={'C08'},
@@ -603,6 +608,8 @@ def t_process_queue(E):
         E.cover('%s/exit[%s]' % (Qn, kind))
         ev = st['events']
         if kind == 'return':
+            E.oblige(Qn + '/cancellation.delivered_to_the_task_is_never_taken_for_a_flush_request',
+                     z3.BoolVal(not st.get('own_cancel_delivered')), props={'C07'})
             if st.get('exit_how') is None and 'get' not in ev and st.get('first') is None:
                 # shutdown before anything was dequeued
                 E.oblige(Qn + '/ensures.returns_without_a_round_only_on_loop_shutdown', z3.BoolVal(True), props={'C07'})
